@@ -93,6 +93,29 @@ func neighbourhood(s string, f func(t, op string)) {
 			f(s[i:], "nb-suffix")
 		}
 	}
+	// every byte replaced by a multi-byte rune that a narrowing conversion, a case fold or a "is this letter"
+	// table could take for it: code points with the same low byte (U+01xx, U+02xx, U+2Cxx, U+104xx), the
+	// full-width form, the Kelvin sign / long s / dotless i style case-fold partners, and the byte itself behind a
+	// UTF-8 lead byte (over-long 2-byte form)
+	for i := range b {
+		c := b[i]
+		tw := []string{string(rune(0x100 + int(c))), string(rune(0x200 + int(c))), string(rune(0x2C00 + int(c))), string(rune(0x10400 + int(c))),
+			string([]byte{0xC0 | c>>6, 0x80 | c&0x3F})}
+		if c > 0x20 && c < 0x7F {
+			tw = append(tw, string(rune(0xFF00+int(c)-0x20)))
+		}
+		switch c {
+		case 'K', 'k':
+			tw = append(tw, "\u212a")
+		case 'S', 's':
+			tw = append(tw, "\u017f")
+		case 'I', 'i':
+			tw = append(tw, "\u0131", "\u0130")
+		}
+		for _, t := range tw {
+			f(s[:i]+t+s[i+1:], "nb-rune-twin")
+		}
+	}
 	// adjacent transpositions
 	for i := 0; i+1 < len(b); i++ {
 		if b[i] != b[i+1] {
